@@ -667,6 +667,8 @@ class Interp:
             self.unbind(fr, extra)
             ctx.assume(inv.inv(self, fr, i))
             self.assign(node.target, elem(i), fr)
+            if hasattr(inv, 'on_element'):
+                inv.on_element(self, fr, i)
             log = self.start_write_log()
             ctx.ghost[name + '.exit_index'] = i
             ctx.ghost[name + '.exit'] = 'break-or-return'
@@ -894,7 +896,7 @@ class Interp:
             return MethodRef(o, name)
         if isinstance(o, self.models.Handle):
             return self.models.handle_attr(self, o, name)
-        if isinstance(o, self.models.SymRegex):
+        if isinstance(o, (self.models.SymRegex, self.models.LazySeq)):
             return MethodRef(o, name)
         if o is None:
             raise_py(AttributeError, "'NoneType' object has no attribute '%s'" % name)
@@ -1167,6 +1169,10 @@ class Interp:
         if (isinstance(a, bool) or is_symbool(a)) and (isinstance(b, bool) or is_symbool(b)):
             from .values import zbool
             return simp(z3.If(c, zbool(a), zbool(b)))
+        if isinstance(a, str) and isinstance(b, str):
+            if a == b:
+                return a
+            return Choice([(c, a), (simp(z3.Not(c)), b)])
         if is_str(a) and is_str(b):
             sa, sb = segs_of(a), segs_of(b)
             if len(sa) == len(sb) and all(isinstance(x, int) or is_symint(x) for x in sa + sb):
